@@ -128,7 +128,7 @@ Definition EPS : Q := 1 # 100000.
 Definition agent_row (i : nat) (c : cell) : row :=
   [((4 * i)%nat, 0%Z); ((4 * i + 1)%nat, Z.of_nat i); ((4 * i + 2)%nat, fst c); ((4 * i + 3)%nat, snd c)].
 Definition zget (k : key) (r : row) : Z := match rget k r with Some v => v | None => 0%Z end.
-Definition row_cell (i : nat) (r : row) : cell := (zget (4 * i + 2) r, zget (4 * i + 3) r).
+Definition row_cell (i : nat) (r : row) : cell := (zget (4 * i + 2)%nat r, zget (4 * i + 3)%nat r).
 Definition row_cells (n : nat) (r : row) : list cell := map (fun i => row_cell i r) (seq 0 n).
 
 Definition moved (L : layout) (c : cell) (a : action) : cell :=
